@@ -40,6 +40,32 @@ def main():
             ufl.Coefficient(V), ufl.Constant(m), ufl.TrialFunction(V)
     if mode == "reverse":
         cases = cases[::-1]
+    if mode == "isolated":
+        # every case in a process of its own (forked before anything was compiled): no history at all
+        for c in cases:
+            r, w = os.pipe()
+            pid = os.fork()
+            if pid == 0:
+                os.close(r)
+                try:
+                    t = gen(c["code"], lang)
+                    msg = hashlib.sha1(t.encode()).hexdigest()
+                except BaseException as e:  # noqa: BLE001
+                    msg = "ERR " + type(e).__name__ + ": " + str(e)[:100]
+                os.write(w, msg.encode())
+                os._exit(0)
+            os.close(w)
+            data = b""
+            while True:
+                chunk = os.read(r, 4096)
+                if not chunk:
+                    break
+                data += chunk
+            os.close(r)
+            os.waitpid(pid, 0)
+            out["digests"][c["id"]] = data.decode() or "ERR child died"
+        pickle.dump(out, open(sys.argv[2], "wb"))
+        return
     for i, c in enumerate(cases):
         try:
             if mode == "interleaved" and i > 0:
